@@ -234,7 +234,7 @@ func WorkerMain(prop, casesFile, outFile string) int {
 	}
 	ct := chk.CaseTimeout
 	if ct == 0 {
-		ct = 60 * time.Second
+		ct = 180 * time.Second
 	}
 	var cur atomic.Pointer[Case]
 	var started atomic.Int64
@@ -337,7 +337,7 @@ func runBatch(chk *Check, cases []Case, work string, idx int) batchOut {
 	cmd.Env = append(cmd.Env, "VERIF_SCRATCH="+filepath.Join(work, fmt.Sprintf("scratch%d", idx)))
 	ct := chk.CaseTimeout
 	if ct == 0 {
-		ct = 60 * time.Second
+		ct = 180 * time.Second
 	}
 	limit := ct*time.Duration(len(cases)) + 60*time.Second
 	var bo batchOut
